@@ -239,6 +239,12 @@ example : (feedAll (Z := toyInflater) ⟨0, false, true, 100⟩ {}
     = (if Gen.C11.closeLatchesInSendFrame then [.text [0x61], .close 1000 [], .ping []]
        else [.text [0x61], .close 1000 [], .text [0x62], .ping []]) := by decide +kernel
 
+-- payloads that look like the deflate sync-flush tail are ordinary payloads on the plain route: nothing is stripped
+example : (feedAll (Z := toyInflater) ⟨0, false, true, 100⟩ {}
+      [(sendAll (D := ⟨Unit, fun _ => (), fun _ m _ => ((), m)⟩) ⟨true, 0, false, 100⟩ {}
+        [⟨2, [0, 0, 255, 255], 0, [7, 7, 7, 7]⟩, ⟨9, [65, 0, 0, 255, 255], 0, [1, 2, 3, 4]⟩]).ws.out]).p.k.msgs
+    = [.binary [0, 0, 255, 255], .ping [65, 0, 0, 255, 255]] := by decide +kernel
+
 /-! ## concurrent senders (model `AioModel/C11Conc.lean`) -/
 
 /-- **wire order = compress order, on every schedule.**  After any sequence of labels — tasks
